@@ -9,6 +9,7 @@ import (
 	webp "github.com/deepteams/webp"
 	"github.com/deepteams/webp/internal/zzverif/choice"
 	"github.com/deepteams/webp/internal/zzverif/fw"
+	"github.com/deepteams/webp/internal/zzverif/imgs"
 	"github.com/deepteams/webp/internal/zzverif/refdec"
 )
 
@@ -24,6 +25,7 @@ type c07Case struct {
 	Q       int
 	Exact   bool
 	Seed    int64
+	Store   string // "": *image.NRGBA at the origin; else how the same pixels are stored (C19's placements, imgs.As types)
 }
 
 var c07Patterns = []string{"blocks", "checker", "onepx", "lv3", "lv5", "lv16", "lv17", "hgrad", "vgrad", "dgrad", "noise", "opaque1", "transparent", "opaque"}
@@ -143,7 +145,7 @@ func (cs *c07Case) source() (*image.NRGBA, []byte) {
 }
 
 func (cs *c07Case) key() string {
-	return fmt.Sprintf("lossy-alpha %dx%d %s/%s ac=%d af=%d aq=%d m=%d q=%d exact=%v", cs.W, cs.H, cs.Pattern, cs.RGB, cs.AC, cs.AF, cs.AQ, cs.M, cs.Q, cs.Exact)
+	return fmt.Sprintf("lossy-alpha %dx%d %s/%s ac=%d af=%d aq=%d m=%d q=%d exact=%v%s", cs.W, cs.H, cs.Pattern, cs.RGB, cs.AC, cs.AF, cs.AQ, cs.M, cs.Q, cs.Exact, map[bool]string{true: " store=" + cs.Store}[cs.Store != ""])
 }
 
 func alphaOf(img image.Image, w, h int) ([]byte, string) {
@@ -175,7 +177,15 @@ func alphaOf(img image.Image, w, h int) ([]byte, string) {
 }
 
 func (cs *c07Case) run() string {
-	img, srcA := cs.source()
+	src, srcA := cs.source()
+	var img image.Image = src
+	switch cs.Store {
+	case "":
+	case "RGBA", "NRGBA64", "generic":
+		img = imgs.As(src, cs.Store) // premultiplied / 16-bit / opaque-to-the-fast-paths: the alpha channel is the same
+	default:
+		img, _ = place(src, cs.Store)
+	}
 	o := &webp.EncoderOptions{Quality: float32(cs.Q), Method: cs.M, Exact: cs.Exact,
 		AlphaCompression: cs.AC, AlphaFiltering: cs.AF, AlphaQuality: cs.AQ,
 		SNSStrength: -1, FilterStrength: -1, FilterType: -1, Segments: -1, Pass: -1, QMax: -1}
@@ -283,7 +293,7 @@ func cmpPlane(want, got []byte, w int) string {
 
 func init() {
 	registerCases[c07Case]("C07", "exploration",
-		"full product of alpha-pattern class x size x RGB class x AlphaCompression{-1,0,1} x AlphaFiltering{-1,0,1,2} x AlphaQuality{0,1,50,70,71,99,100,-1} x Method 0..6 x Quality{20,90} x Exact (quick: reduced size/Method/Quality menus, still a full product), plus every number of distinct alpha levels 1..256 on a 20x20 noise layout x AlphaCompression{-1,1} x AlphaFiltering{-1,0} x Method{0,3,4,6}, plus curved alpha surfaces (glow, saddle) at 33x33 and 64x48 x AlphaCompression{-1,1} x AlphaFiltering{-1,1,2} x Method{0,3,4,6}; non-trivial = distinct (pattern,size,options) tuple",
+		"full product of alpha-pattern class x size x RGB class x AlphaCompression{-1,0,1} x AlphaFiltering{-1,0,1,2} x AlphaQuality{0,1,50,70,71,99,100,-1} x Method 0..6 x Quality{20,90} x Exact (quick: reduced size/Method/Quality menus, still a full product), plus every number of distinct alpha levels 1..256 on a 20x20 noise layout x AlphaCompression{-1,1} x AlphaFiltering{-1,0} x Method{0,3,4,6}, plus curved alpha surfaces (glow, saddle) at 33x33 and 64x48 x AlphaCompression{-1,1} x AlphaFiltering{-1,1,2} x Method{0,3,4,6}, plus the storage part: 5 alpha patterns x 2 sizes x 10 ways of storing the same pixels (sub-image views, negative origin, padded stride, over-long Pix, generic wrappers, *image.RGBA, NRGBA64) x AlphaCompression{-1,0} x AlphaFiltering{-1,0,2} x Method{0,4,6} x Exact; non-trivial = distinct (pattern,size,options) tuple",
 		[]string{"worker count pinned to 1, pools never reuse", "reference ALPH decoder written from the container specification on top of the vendored x/image vp8l decoder"},
 		nil,
 		func(e *fw.Env) func(c *choice.Ctx) caseI {
@@ -298,7 +308,23 @@ func init() {
 			aqs := []int{100, 0, 1, 50, 70, 71, 99, -1}
 			return func(c *choice.Ctx) caseI {
 				cs := &c07Case{Seed: e.Seed}
-				part := c.PickFree(3, "part")
+				part := c.PickFree(4, "part")
+				if part == 3 {
+					// the same alpha plane stored differently: views into larger buffers, foreign
+					// strides and origins, premultiplied and 16-bit pixels, an opaque wrapper
+					s := [][2]int{{7, 3}, {17, 9}}[c.PickFree(2, "size")]
+					cs.W, cs.H = s[0], s[1]
+					cs.Pattern = []string{"blocks", "dgrad", "noise", "lv5", "onepx"}[c.PickFree(5, "pattern")]
+					cs.RGB = "noise"
+					cs.Store = []string{"sub35", "subodd", "negorigin", "stride", "longpix", "genericSub", "genericNeg", "RGBA", "NRGBA64", "generic"}[c.PickFree(10, "store")]
+					cs.AC = []int{-1, 0}[c.PickFree(2, "ac")]
+					cs.AF = []int{-1, 0, 2}[c.PickFree(3, "af")]
+					cs.AQ = 100
+					cs.M = []int{0, 4, 6}[c.PickFree(3, "method")]
+					cs.Q = 75
+					cs.Exact = c.PickFree(2, "exact") == 1
+					return cs
+				}
 				if part == 2 {
 					// curved alpha surfaces with more than 16 levels: the filter estimator picks the
 					// gradient filter and the prediction leaves 0..255 in places
